@@ -68,11 +68,13 @@ func init() {
 	})
 	registerCheck(&checkSpec{
 		id:    "C12",
-		dirs:  []string{"socket"},
+		dirs:  []string{"socket", "."},
 		level: "other",
 		jobs: func(tier string) []job {
 			js := []job{J("socket", "VX_C12_PipeInverts", 0, 2), J("socket", "VX_C12_PipeInverts", 1, 2), J("socket", "VX_C12_PipeInverts", 2, 2),
-				J("socket", "VX_C12_PipeOnWire", 1, 1), J("socket", "VX_C12_PipeOnWire", 2, 1), J("socket", "VX_C12_Unregistered"), J("socket", "VX_C12_TooLong")}
+				J("socket", "VX_C12_PipeOnWire", 1, 1), J("socket", "VX_C12_PipeOnWire", 2, 1), J("socket", "VX_C12_Unregistered"), J("socket", "VX_C12_TooLong"),
+				// a reply (also an error reply) goes through the caller's pipe: [C12]-tagged assertion of the frame harness
+				J(".", "VX_C03_Frame", 1, 0, 0, 0, 0, 0, 1, 1), J(".", "VX_C03_Frame", 1, 1, 0, 0, 0, 0, 1, 1), J(".", "VX_C03_Frame", 1, 2, 0, 0, 0, 0, 0, 1), J(".", "VX_C03_Frame", 1, 0, 0, 1, 0, 0, 1, 1), J(".", "VX_C03_Frame", 1, 0, 0, 2, 0, 0, 1, 1), J(".", "VX_C03_Frame", 1, 0, 0, 0, 2, 0, 1, 1)}
 			if tier == "thorough" {
 				js = append(js, J("socket", "VX_C12_PipeInverts", 3, 4), J("socket", "VX_C12_PipeInverts", 4, 1), J("socket", "VX_C12_PipeOnWire", 3, 2))
 			}
@@ -156,6 +158,7 @@ func init() {
 		add(1, 3, 0, 1, 1, 0, 0)
 		add(2, 1, 1, 0, 0, 0, 0)
 		add(3, 1, 0, 1, 0, 0, 0)
+		js = append(js, J(".", "VX_C02_CloseThenLoss", 0), J(".", "VX_C02_CloseThenLoss", 1))
 		for _, cut := range []int{1, 3, 4, 5, 9, 14, 18} {
 			add(1, 1, 0, 2, 0, cut, 0)
 		}
@@ -436,5 +439,24 @@ func init() {
 		assumptions: append(append([]string{}, stdAssumptions...), "reflect is the engine's model (types from go/types; addressable values; the subset used by the plain and form codecs)", "json, xml, protobuf and thrift codecs are three-line delegations to reflection/table-driven library encoders and are outside the claim; floats excluded"),
 		explanation: "the real PlainCodec and FormCodec (formatProperType/parseProperType, setStructToForm/mapFormToStruct/setWithProperType, url.Values.Encode/url.ParseQuery interpreted) are executed on symbolic values and on arbitrary symbolic input bytes; round trip incl. element order, no panic leaving the codec, and independence of the decoded value from the input buffer are SMT-checked assertions",
 		bounds:      "plain: string/named string/[]byte/named bytes (<= 1-3 bytes), bool, int8/32/64, uint8/64; form: struct with string/int8/bool/[]string(<=3)/[2]string/nested struct, one symbolic field group per instance; arbitrary input <= 3 (quick) / 4 bytes",
+	})
+	registerCheck(&checkSpec{
+		id: "C14", dirs: []string{"."}, level: "other",
+		jobs: func(tier string) []job {
+			var js []job
+			for sc := 0; sc <= 6; sc++ {
+				js = append(js, J(".", "VX_C14_Races", sc, 0))
+			}
+			js = append(js, J(".", "VX_C14_Races", 0, 1), J(".", "VX_C14_Races", 4, 1))
+			if tier == "thorough" {
+				for sc := 1; sc <= 6; sc++ {
+					js = append(js, J(".", "VX_C14_Races", sc, 1))
+				}
+			}
+			return js
+		},
+		assumptions: append(append([]string{}, rootAssume...), "race = two conflicting plain accesses (or a plain and an atomic access) to the same memory cell or Go map, not ordered by happens-before built from: mutex/rwmutex unlock->lock, atomic operations per cell, channel send->receive and close->receive, WaitGroup Done->Wait, goroutine start, sync.Map/goutil.Map and sync.Pool operations; accesses made by harness code are not reported", "races inside stubbed libraries (thrift, websocket, net/http) and in the thrift protocol's byte counters are outside the claim"),
+		explanation: "documented-concurrent operations (swap access, id change vs lookup/enumeration, concurrent calls with reply delivery, push vs reply write vs close, age setters/getters, double close, call vs remote close) run in separate interpreted goroutines of the real code with a vector-clock happens-before race detector over every interpreted load/store/map access; detection is per execution and schedule-independent for the executed paths; selected scenarios additionally explored over schedules with one pre-emption",
+		bounds:      "7 scenarios of 2-3 goroutines; run-to-block schedule (+ all schedules with 1 pre-emption for listed scenarios); sequentially consistent execution",
 	})
 }
